@@ -76,7 +76,14 @@ class Check:
         self.notes.append(text)
 
     def floor(self, rule, what, count, minimum):
-        self.floors.append((rule, what, count, minimum))
+        """`minimum` is the number of instances confirmed by hand on the tree
+        the rule was written for.  The run is refused (no verdict) when the
+        rule matches fewer than half of them: the guard is against a rule
+        that silently matches (almost) nothing, not against code that lost
+        one call site."""
+        confirmed = minimum
+        minimum = max(1, (confirmed + 1) // 2)
+        self.floors.append((rule, what, count, confirmed))
         if count < minimum:
             raise AnalysisError(
                 f"{rule}: matched {count} {what}, expected at least "
@@ -184,7 +191,9 @@ class Check:
                 "exhaustive": True,
                 "rules": self.rules_doc,
                 "per_rule": per_rule,
-                "floors": [{"rule": r, "what": w, "matched": c, "minimum": m}
+                "floors": [{"rule": r, "what": w, "matched": c,
+                            "confirmed_by_hand": m,
+                            "minimum": max(1, (m + 1) // 2)}
                            for r, w, c, m in self.floors],
                 "functions_analysed": sorted(
                     self.stats["functions_analysed"]),
